@@ -74,6 +74,10 @@ def text(rng, codec=None, lookalikes=True, maxlines=6):
         if i < len(lines) - 1:
             out.append(nl if nl else rng.choice(['\n', '\r\n', '\r\r\n']))
     s = ''.join(out)
+    if rng.random() < 0.04:
+        # a very long first line (read-ahead windows, scan limits)
+        pad = 'L' * rng.choice([1000, 1022, 1023, 1024, 1025, 2048, 4100])
+        s = (pad if codec is None else _restrict(pad, codec)) + s
     r = rng.random()
     if r < 0.5:
         s += nl if nl else rng.choice(['\n', '\r\n'])
